@@ -272,6 +272,25 @@ Qed.
 Theorem bool_roundtrip b : bool_sql2py (bool_py2sql b) = b.
 Proof. destruct b; reflexivity. Qed.
 
+(* ------------------------------------------------------------------------------------------------ tracked Json / array values *)
+(* whatever value is assigned to obj.attr (plain, tracked by obj itself, tracked by ANOTHER object, tracked for another attribute),
+   the value the object ends up holding notifies (obj, attr) when it is edited in place *)
+Theorem json_validate_owner obj attr v : tv_notifies (json_validate obj attr v) = Some (obj, attr).
+Proof.
+  unfold json_validate, json_keeps. destruct v as [p|o a p]; cbn [tv_is_tracked tv_owner_is tv_attr_is tv_payload tv_notifies andb]; [reflexivity|].
+  break_if; cbn [tv_notifies]; [|reflexivity]. assert (o = obj /\ a = attr) as [-> ->] by lia. reflexivity.
+Qed.
+
+Theorem array_validate_owner obj attr v : tv_notifies (array_validate obj attr v) = Some (obj, attr).
+Proof.
+  unfold array_validate, array_keeps. destruct v as [p|o a p]; cbn [tv_is_tracked tv_owner_is tv_attr_is tv_payload tv_notifies andb]; [reflexivity|].
+  break_if; cbn [tv_notifies]; [|reflexivity]. assert (o = obj /\ a = attr) as [-> ->] by lia. reflexivity.
+Qed.
+
+(* the payload is never altered by validate *)
+Theorem json_validate_payload obj attr v : tv_payload (json_validate obj attr v) = tv_payload v.
+Proof. unfold json_validate. break_if; reflexivity. Qed.
+
 (* ------------------------------------------------------------------------------------------------ witnesses for the known findings *)
 Lemma date_999_valid : valid_date (mk_date 999 12 31).
 Proof. vm_compute. reflexivity. Qed.
